@@ -20,9 +20,18 @@ Layouts == UNION {[1..n -> Entry] : n \in 1..3}
 \* how a configured index is written: a Python number or a string
 Forms == {"int", "str"}
 
+\* the keys of the configuration: cert_file (+ additional_cert_files) sign, encryption_keypairs encrypt.  Generated
+\* metadata publishes the first kind with use="signing" and the second with use="encryption" -- each under its own use
+EncKeys == {"none", "one", "two"}
+SignCerts(s) == IF s.extraSign THEN {"kSp", "kIdp1b"} ELSE {"kSp"}
+EncCerts(s) == CASE s.encKeys = "none" -> {} [] s.encKeys = "one" -> {"kSpEnc1"} [] OTHER -> {"kSpEnc1", "kSpEnc2"}
+\* the key dimensions are varied on the single-endpoint layouts
+WellFormed(s) == (s.encKeys # "one" \/ s.extraSign) => Len(s.layout) = 1 /\ s.layout[1].idx = "none" /\ s.form = "str"
+
 VARIABLES scn, pc, out
 vars == <<scn, pc, out>>
-Init == scn \in [layout : Layouts, form : Forms] /\ pc = "generate" /\ out = <<>>
+Init == /\ scn \in {s \in [layout : Layouts, form : Forms, encKeys : EncKeys, extraSign : BOOLEAN] : WellFormed(s)}
+        /\ pc = "generate" /\ out = <<>>
 
 \* do_endpoints: one counter per service, advanced only by the entries it numbers
 RECURSIVE Number(_, _)
@@ -41,7 +50,7 @@ Contract(o) == /\ Len(o) = Len(scn.layout)
 AutoDistinct(o) == \A j, k \in 1..Len(o) : (j # k /\ scn.layout[j].idx = "none" /\ scn.layout[k].idx = "none") => o[j].idx # o[k].idx
 
 Emit == /\ pc = "done" /\ pc' = "emitted" /\ UNCHANGED <<scn, out>>
-        /\ PrintT(<<"CASE", ToJson([scn |-> scn, model |-> out])>>)
+        /\ PrintT(<<"CASE", ToJson([scn |-> scn, model |-> out, signing |-> SignCerts(scn), encryption |-> EncCerts(scn)])>>)
 Next == Generate \/ Emit
 Spec == Init /\ [][Next]_vars
 PipelineMeetsContract == pc \in {"done", "emitted"} => Contract(out) /\ AutoDistinct(out)
